@@ -514,6 +514,11 @@ impl Model {
             }
             BodyExpr::Const(c) => norm(*c + l),
             BodyExpr::NewVar { v, .. } => norm(*v + l),
+            BodyExpr::Ref(e, proj) => {
+                let x = self.scratch_body(e, l, cx, depth + 1)?;
+                if *proj % 2 == 0 { x.rem_euclid(3) } else { x.div_euclid(2) }
+            }
+            BodyExpr::WithOld(e, f) => f.ap(self.scratch_body(e, l, cx, depth + 1)?),
             BodyExpr::Map(e, f) | BodyExpr::MapVia(e, f, _) => f.ap(l, self.scratch_body(e, l, cx, depth + 1)?),
             BodyExpr::Map2(a, b, f) => f.ap(
                 self.scratch_body(a, l, cx, depth + 1)?,
